@@ -4,9 +4,17 @@ import json, os, sys
 sys.path.insert(0, os.path.dirname(os.path.abspath(__file__)))
 from manifest_data import CHECKS, NOT_APPLICABLE, ENGINES, NOTES, HOOK_COMMITS
 HOME = os.path.dirname(os.path.dirname(os.path.abspath(__file__)))
+import re
+_targets = []
+for c in CHECKS:
+    _targets.append(f"Basyx.Props.{c['id']}")
+    mf = os.path.join(HOME, "lean", "Mains", c["id"] + ".lean")
+    if os.path.exists(mf):
+        _targets += re.findall(r"^import\s+(\S+)", open(mf).read(), re.M)
+SETUP = "cd lean && lake build " + " ".join(sorted(set(_targets)))
 m = {
  "version": 1,
- "setup_cmd": "cd lean && lake build",
+ "setup_cmd": SETUP,
  "hooks": {
   "guard": "BASYX_PYTHON_SDK_VERIF",
   "enable": "no source hooks are needed: the harness imports basyx from /repo/sdk (PYTHONPATH) and instruments from outside; ./check exports BASYX_PYTHON_SDK_VERIF=1 for completeness",
@@ -34,3 +42,14 @@ for c in CHECKS:
     })
 json.dump(m, open(os.path.join(HOME, "MANIFEST.json"), "w"), indent=1)
 print("MANIFEST.json written:", len(m["checks"]), "checks,", len(NOT_APPLICABLE), "not_applicable")
+
+# merged known-findings file (source of truth: known_findings/<id>.json)
+import glob
+merged = {"_comment": "Merged copy of known_findings/<id>.json (written by py/gen_manifest.py, never at check run time). "
+          "status open = genuine defect recorded, not repaired (suppresses exactly the failing case with this signature); "
+          "status fixed = repaired by the named 'fix:' commit in /repo (suppresses nothing).", "findings": []}
+for f in sorted(glob.glob(os.path.join(HOME, "known_findings", "C*.json"))):
+    pid = os.path.basename(f)[:-5]
+    for e in json.load(open(f)).get("findings", []):
+        merged["findings"].append(dict(e, property=pid))
+json.dump(merged, open(os.path.join(HOME, "known_findings.json"), "w"), indent=1)
